@@ -287,6 +287,9 @@ func NewProgram(target *Target) Program {
 		linkname: make(map[string]string), abiSymbol: make(map[string]*AbiSymbol),
 	}
 	prog.abi.Init(uintptr(prog.ptrSize), (*goProgram)(unsafe.Pointer(prog)))
+	// descriptor alignments of 8-byte scalars follow the data layout (4 on 386)
+	prog.abi.Align64 = uintptr(td.ABITypeAlignment(ctx.Int64Type()))
+	prog.abi.AlignF64 = uintptr(td.ABITypeAlignment(ctx.DoubleType()))
 	return prog
 }
 
